@@ -65,7 +65,17 @@ func (c *Module) Connect(conn *sqlite.Conn, args []string,
 
 func (c *Module) Create(conn *sqlite.Conn, args []string, declare func(string) error) (sqlite.VirtualTable, error) {
 	// fmt.Printf("CREATE\n")
-	return c.Connect(conn, args, declare)
+	vt, err := c.Connect(conn, args, declare)
+	if err != nil {
+		return nil, err
+	}
+	// SQLite enters a created table into the current transaction (sqlite3VtabCallCreate) without
+	// calling xBegin, and then calls xSync and xCommit, or xRollback, as for any other
+	if err := vt.(*VirtualTable).Begin(); err != nil {
+		vt.(*VirtualTable).Disconnect()
+		return nil, err
+	}
+	return vt, nil
 }
 
 type VirtualTable struct {
